@@ -742,6 +742,55 @@ def expand_upvars(program, body, term, depth=4):
     return rebuild(term, f)
 
 
+def inline_combinators(program, term, depth=0):
+    """Rewrite Option/Result combinator calls whose function argument is a closure into the closure's own result:
+
+        x.and_then(|v| f(v))   ->  f(payload of x)            (the Some/Ok payload of the call is the payload of f's result)
+        x.map(|v| f(v))        ->  Some(f(payload of x))
+
+    so that `mss.and_then(|m| a.checked_div(m))` and `if let Some(m) = mss { if let Some(r) = a.checked_div(m) {..} }` describe the
+    compared quantity by the same term.  Captured variables are replaced by their origin in the creating body."""
+    if depth > 6:
+        return term
+
+    def f(node):
+        if node[0] == "upvar":
+            return inline_combinators(program, node[2], depth + 1)
+        if node[0] != "call" or len(node[2]) != 2:
+            return None
+        last = node[1].rsplit("::", 1)[-1]
+        if last not in ("and_then", "map") or not ("Option" in node[1] or "Result" in node[1]):
+            return None
+        cl = strip(node[2][1])
+        if not (cl[0] == "agg" and cl[1] == "closure" and cl[2] in program.bodies):
+            return None
+        cb = program.bodies[cl[2]]
+        CS = Slicer(cb, program)
+        rets = []
+        for (bi, bj, full) in CS.defs().get(0, []):
+            if full:
+                rets.append(CS.def_term(0, bi, bj, 0))
+        if len(rets) != 1:
+            return None
+        r = expand_upvars(program, cb, rets[0], depth=2)
+        recv = inline_combinators(program, node[2][0], depth + 1)
+        wrap = "Some" if "Option" in node[1] else "Ok"
+        payload = ("field", ("downcast", recv, wrap), 0)
+
+        def g(n2):
+            if n2[0] == "payload" and n2[3] == 1:
+                return payload
+            if n2[0] == "upvar":
+                return n2[2]
+            return None
+        r = rebuild(r, g)
+        r = inline_combinators(program, r, depth + 1)
+        if last == "map":
+            return ("agg", "adt", "core::option::Option" if wrap == "Some" else "core::result::Result", wrap, (r,))
+        return r
+    return rebuild(term, f)
+
+
 def fold_int(t):
     """Constant-fold an integer term (None if not a compile-time constant expression)."""
     t = strip(t)
